@@ -1231,11 +1231,18 @@ func c05Obligs(tier string) []Oblig {
 		}
 	}
 	// pre-redactable fields under wrappers; io.WriteString from a SafeFormatter
-	for _, l1 := range []int{17, 18, 19} {
+	// (20, 21: nested Print/Printf of plain operands, under Safe() and bare)
+	for _, l1 := range []int{17, 18, 19, 20, 21} {
 		for _, l2 := range []int{0, 2} {
 			for _, shape := range []int{0, 1, 2, 4} {
 				for _, fi := range []int{0, 3} {
 					if shape != 0 && fi != 0 {
+						continue
+					}
+					if l1 == 20 && (shape == 1 || shape == 2) {
+						// inside a container redact (like fmt) prints the Safe()
+						// wrapper's content reflectively and never reaches
+						// SafeFormat: the top-level shapes carry this leaf
 						continue
 					}
 					obs = append(obs, Oblig{Harness: "H_c05", Args: []int{l1, l2, 1, shape, fi, n, 0}})
